@@ -20,12 +20,15 @@ Definition model_read (t : option (list byte)) : option (list obj) :=
    agree_printer: the implementation's text and the model's text denote the same objects (a change of layout,
    of letter case in a prefix, an extra escape ... that reads back alike is not a disagreement).
    0 ok.
-   1: the model differs from the implementation but the implementation's round trip is fine, or fails only
-      outside the guard where the model's fails too.
+   1: inside the guard the model differs from the implementation although the implementation's round trip is
+      fine (the link between the theorems and the code is broken, no failing input).
    2: the model differs AND the object the implementation reads back is not an equal object of the same type
       although the pair is inside the guard, or the model (the unchanged code) did carry this pair round: a failing input.
    3: self-check: model = implementation, the pair is inside the guard, and the round trip fails (excluded by
-      theorem C03_model_meets_spec_in_guard). *)
+      theorem C03_model_meets_spec_in_guard).
+   Outside the guard a difference is not reported when the implementation's round trip is fine (the code got
+   better there) or when the unchanged code's also failed (it was already broken there); such pairs are
+   counted by drift_outside_guard. *)
 Definition check_case (k : case) : N :=
   let c := k_cfg k in let x := k_obj k in
   let mr_model := model_read (model_text c x) in
@@ -36,7 +39,11 @@ Definition check_case (k : case) : N :=
   let model_ok := roundtrip_ok x mr_model in
   let g := in_domain c x in
   if agree_reader && agree_printer then (if g && negb impl_ok then 3%N else 0%N)
-  else if negb impl_ok && (g || model_ok) then 2%N else 1%N.
+  else if negb impl_ok then (if g || model_ok then 2%N else 0%N)
+  else if g then 1%N else 0%N.
+Definition disagrees (k : case) : bool :=
+  let mr_impl_text := model_read (k_text k) in
+  negb (read_eqb mr_impl_text (k_read k) && read_eqb (model_read (model_text (k_cfg k) (k_obj k))) mr_impl_text).
 
 Fixpoint check_all_from (i : N) (cs : list case) : list (N * N) :=
   match cs with
@@ -52,3 +59,6 @@ Definition outside_failures (cs : list case) : N :=
 (* informational: texts that differ from the model's byte for byte while denoting the same objects *)
 Definition text_differences (cs : list case) : N :=
   N.of_nat (length (filter (fun k => negb (opt_bytes_eqb (model_text (k_cfg k) (k_obj k)) (k_text k))) cs)).
+(* informational: pairs outside the guard on which model and implementation differ *)
+Definition drift_outside_guard (cs : list case) : N :=
+  N.of_nat (length (filter (fun k => negb (in_domain (k_cfg k) (k_obj k)) && disagrees k) cs)).
